@@ -1,5 +1,6 @@
 """C32 - volume server GET with a Range header (HttpRange.tla): 206 with exactly the requested
 bytes, 416 when nothing is satisfiable, or 200 with the complete content; gzip only if accepted."""
+import gzip
 import json
 import os
 import random
@@ -59,8 +60,8 @@ def run(ctx):
     rng = random.Random(ctx.seed)
     # 1. the definition itself: sanity properties over every content length / request / near-miss answer
     mc = ctx.instance("MC_HttpRange", "HttpRange", "HttpRange_mc.cfg",
-                      {"MaxLen": 4 if ctx.thorough else 2, "Grid": [5, 4, 2] if ctx.thorough else [3, 1, -1],
-                       "GenAcc": {"none", "gzip", "q0", "star"}, "MaxOps": 1})
+                      {"MaxLen": 3 if ctx.thorough else 2, "Grid": [4, 3, 1] if ctx.thorough else [3, 1, -1],
+                       "GenAcc": {"none", "gzip", "q0"}, "MaxOps": 1})
     ctx.model_check(mc, workers=4)
     # 2. TLC enumerates the requests: every single range over 0..MaxLen+2 (+ malformed classes),
     #    every pair over a smaller grid, every triple over a tiny grid
@@ -82,6 +83,15 @@ def run(ctx):
         blobs.append((c, True, "put"))
     blobs.append(([ord(x) for x in "abcd"], True, "op"))
     blobs.append(([ord(x) for x in "abcdefg"], False, "op"))
+    # blobs stored AS IS whose bytes are themselves a gzip file (a user's .gz uploaded as plain data, compression
+    # flag not set) or merely start with the gzip magic 1f 8b: the stored bytes are the content
+    gz_tiny = list(gzip.compress(b"abc", mtime=0))
+    gz_file = list(gzip.compress(b"the quick brown fox jumps over the lazy dog\n" * 20, mtime=0))
+    magic = [0x1F, 0x8B, 8, 0] + [rng.randint(0, 255) for _ in range(12)]
+    blobs.append((gz_tiny, False, "put"))
+    blobs.append((gz_tiny, False, "op"))
+    blobs.append((magic, False, "put"))
+    blobs.append(([0x1F, 0x8B], False, "put"))
     execs = []
 
     def pack(blob, reqs):
@@ -91,7 +101,7 @@ def run(ctx):
     for (c, gz, via) in blobs:
         L = len(c)
         # ranges refer to the gzip representation (20..40 bytes) when it is served: do not cut the grid there
-        lim = 99 if gz else L + 2
+        lim = 99 if gz or L > MAXLEN else L + 2
         reqs = [r for r in singles if max(nums(r[0]) or [0]) <= lim]
         pp = [r for r in pairs if max(nums(r[0])) <= lim]
         tt = [r for r in triples if max(nums(r[0])) <= lim]
@@ -108,7 +118,8 @@ def run(ctx):
     bigs = [([ord(x) for x in text], True, "op"),
             ([ord(x) for x in text[:1100]], True, "put"),
             ([rng.randint(0, 255) for _ in range(300)], False, "put"),
-            ([rng.randint(0, 255) for _ in range(1500)], False, "op")]
+            ([rng.randint(0, 255) for _ in range(1500)], False, "op"),
+            (gz_file, False, "put"), (gz_file, False, "op")]
     for b in bigs:
         pack(b, big_requests(rng, len(b[0])))
 
@@ -153,7 +164,7 @@ def run(ctx):
     ctx.rule = ("requests = TLC-enumerated Range values (every single a-b / a- / -n over 0..%d, %d malformed classes, "
                 "every pair over a smaller grid, every triple over a tiny grid) + seeded random 2..5-range headers, "
                 "each without Accept-Encoding and with gzip (a seeded sample also with a list, *, identity, gzip;q=0), against blobs of every length 0..%d stored plain and "
-                "gzip-compressed (PUT with Content-Encoding and operation.UploadData) and 4 larger blobs; one execution = "
+                "gzip-compressed (PUT with Content-Encoding and operation.UploadData), 4 larger blobs, and blobs stored as is whose bytes are a gzip file / start with the gzip magic; one execution = "
                 "one blob x <= %d requests; non-trivial = contains a 206 answer; distinct by hash of the recorded "
                 "execution" % (MAXLEN + 2, 10, MAXLEN, PER_EXEC))
     ctx.exhaustive = True
